@@ -18,7 +18,28 @@ import (
 	astisub "github.com/asticode/go-astisub"
 )
 
-var errFault = errors.New("harness: injected fault")
+// errFault is what a failing stream or destination returns. Real streams fail with all kinds of errors, some of them
+// sentinels of the standard library (a truncated gzip stream or HTTP body ends in io.ErrUnexpectedEOF, a closed pipe in
+// io.ErrClosedPipe …): the injected fault wraps one of them, chosen per case from the case line (execLine), so that a
+// reader which takes a particular error identity for a regular end of stream is seen.
+type faultError struct{}
+
+func (*faultError) Error() string { return "harness: injected fault" }
+func (*faultError) Unwrap() error { return faultDisguise }
+
+var (
+	errFault       error = &faultError{}
+	faultDisguise  error
+	faultDisguises = []error{nil, io.ErrUnexpectedEOF, io.ErrClosedPipe, os.ErrDeadlineExceeded, io.ErrShortBuffer, nil, os.ErrClosed}
+)
+
+func setFaultDisguise(line string) {
+	h := uint32(2166136261)
+	for i := 0; i < len(line); i++ {
+		h = (h ^ uint32(line[i])) * 16777619
+	}
+	faultDisguise = faultDisguises[int(h>>3)%len(faultDisguises)]
+}
 
 // schedReader delivers a byte string according to a nominal schedule of chunk sizes (0 = a zero-length read).
 // It records the effective schedule (what each Read call actually returned).
@@ -338,7 +359,7 @@ func init() {
 		if c.thorough {
 			n = 200000
 		}
-		alphabet := []byte("ab \r\n\r\n\n\rx")
+		alphabet := []byte("ab \r\n\r\n\n\rx\x1a\x00\r\n\n")
 		for i := 0; i < n; i++ {
 			ln := r.intn(40)
 			if r.chance(1, 50) {
@@ -354,7 +375,9 @@ func init() {
 			c.count("random")
 		}
 		// every single split point of CRLF-heavy documents
-		for _, d := range []string{"hi\r\nx", "a\r\n\r\nb\r\n", "\r\n", "a\rb\nc\r\nd", "1\r\n00:00:01,000 --> 00:00:02,000\r\nhello\r\n\r\n"} {
+		for _, d := range []string{"hi\r\nx", "a\r\n\r\nb\r\n", "\r\n", "a\rb\nc\r\nd", "1\r\n00:00:01,000 --> 00:00:02,000\r\nhello\r\n\r\n",
+			// control bytes that some systems take for an end-of-file mark are bytes like any other, wherever a read ends
+			"a\x1ab\nc\n", "x\x1a", "\x1a\n\x1a", "a\x00b\x1a\r\nc", "1\n00:00:01,000 --> 00:00:02,000\nhe\x1allo\n\n2\n00:00:03,000 --> 00:00:04,000\nw\x04\x1a\n"} {
 			for k := 0; k <= len(d); k++ {
 				for _, end := range []string{"eof", "weof", "fault"} {
 					c.do(fmt.Sprintf("lib.scanner %s %s %d", end, encBytes([]byte(d)), k))
